@@ -269,7 +269,19 @@ def run_shard(ctx):
             ctx.mon("deep-nesting")
         else:
             lines = seed_text.replace("\r\n", "\n").split("\n") if rng.random() < 0.7 else ["@sealed"]
-            stmt = rng.choice(GF.CORNER_STATEMENTS) if rng.random() < 0.75 else GF.string_escape_statement(rng)
+            r2 = rng.random()
+            if r2 < 0.7:
+                stmt = rng.choice(GF.CORNER_STATEMENTS)
+            elif r2 < 0.9:
+                stmt = GF.string_escape_statement(rng)
+            else:
+                # the attribute operator applied to an existing type with names that exist there - but are not constants: its fields,
+                # the request / response pseudo-fields of a service, names of the intrinsics spelled slightly off
+                d = rng.choice(deps)
+                names = [f["name"] for f in d["fields"] if "name" in f] + [c["name"] for c in d.get("consts", [])] + ["_extent_", "_bit_length_", "_offset_", "extent", "__class__", "fields"]
+                tgt = rng.choice(["%s.%d.%d.%s" % (d["name"], d["ver"][0], d["ver"][1], rng.choice(names)), "pvns.Svc.1.0." + rng.choice(["request", "response", "a", "b", "Request", "_extent_"]),
+                                  "pvns.Svc.1.0.request.a", "pvns.Svc.1.0.request._extent_"])
+                stmt = rng.choice(["@print %s", "uint8 N = %s", "@assert %s == 1", "uint8[%s] arr", "@print {%s}", "@print %s._extent_", "bool B = %s"]) % tgt
             lines.insert(rng.randrange(len(lines) + 1), stmt)
             text = "\n".join(lines)
             if rng.random() < 0.3:
